@@ -1033,6 +1033,9 @@ class Interp:
 
                             return ctor
                         return v
+                if name == "__new__" and not o.native_bases():
+                    # object.__new__ of a class without a __new__ of its own: cls.__new__(cls) gives a bare instance (no __init__)
+                    return lambda cls_, *a, **k: self.default_new(cls_, list(a), k)
                 raise PyRaise(AttributeError(f"type object '{o.name}' has no attribute '{name}'"))
             if isinstance(f, PFunc) and f.kind == "class":
                 return PBound(f, o)
